@@ -676,3 +676,266 @@ func verifGen_session() {
 	vClassify("program", s.trace)
 	vObserve("session", s.trace, vWireSummary(t.out))
 }
+
+// ---------------------------------------------------------------------------------------------------------------------
+// Gen.session.bg: the same idea with the usual structure of an application: ONE goroutine reads in a loop for the whole
+// life of the connection while the program's steps are issued from another. What the peer sends is consumed as it
+// arrives (the reader is blocked in Read when it does), Pings of the application are answered by the peer and must
+// return nil, Close runs its handshake against the reader that owns the read lock (the peer echoing or not), the read
+// limit changes while the reader waits. The model is the same; what the reader delivered is compared, in order, when
+// the program is over. One sequential schedule (run until blocked, settle after every step); payloads symbolic.
+
+type vBgRead struct {
+	typ MessageType
+	p   []byte
+	err error
+}
+
+type vBgExpect struct {
+	outcome int // 0 message, 1 CloseError(code), 2 failure that is not a peer close, 3 ends with the connection (any error)
+	typ     MessageType
+	p       []byte
+	code    int
+}
+
+// consume advances the model over everything the reader can process now.
+func (s *vSession) consume(want *[]vBgExpect) {
+	for s.usable && len(s.queue) > 0 {
+		o, typ, p, code := s.modelRead()
+		if o == 2 && len(s.queue) == 0 && s.usable == false && !s.lenient && !s.closeInExp {
+			// modelRead's "nothing arrives in time" does not exist here: the reader waits without a deadline
+			s.usable = true
+			s.budget -= time.Second
+			return
+		}
+		*want = append(*want, vBgExpect{outcome: o, typ: typ, p: p, code: code})
+	}
+}
+
+func verifGen_session_bg() {
+	client := vParam("client", 1) == 1
+	mode := vParam("deflate", 0)
+	steps := vParam("steps", 3)
+	vInstallRand()
+	t := vNewTransport(nil)
+	t.endMode = vEndBlock
+	t.step = vParam("step", 0)
+	s := &vSession{client: client, deflate: mode != 0, t: t, usable: true, limit: 32768}
+	s.c = vNewConn(t, client, vCopts(mode), vParam("br", 16), vParam("bw", 32))
+	got := make(chan vBgRead, 64)
+	go func() {
+		for {
+			typ, p, err := s.c.Read(vBG)
+			got <- vBgRead{typ, p, err}
+			if err != nil {
+				return
+			}
+		}
+	}()
+	vGhostSettle()
+	var want []vBgExpect
+	ended := false // the model has recorded how the reader's loop ends
+	endReader := func() {
+		if !ended {
+			want = append(want, vBgExpect{outcome: 3})
+			ended = true
+		}
+	}
+	afterFeed := func() {
+		vGhostSettle()
+		s.consume(&want)
+		if !s.usable {
+			ended = true // the last expectation is the failing read
+		}
+	}
+	lens := []int{0, 1, 3}
+	for i := 0; i < steps; i++ {
+		if !s.usable {
+			switch vChoose("opAfter", 4) {
+			case 0:
+				s.opWrite(1, MessageBinary)
+			case 1:
+				s.opClose()
+			case 2:
+				s.opCloseNow()
+			case 3:
+				s.trace += "i"
+				ctx, cancel := context.WithTimeout(vBG, time.Second)
+				vAssert(s.c.Ping(ctx) != nil, "Gen.after.ping-fails")
+				cancel()
+				s.budget += time.Second
+			}
+			continue
+		}
+		ops := []int{0, 1, 3, 4, 5, 6, 7, 8, 9, 10, 11, 12}
+		if mode != 0 {
+			ops = append(ops, 14)
+		}
+		switch ops[vChoose("op", len(ops))] {
+		case 0:
+			s.opWrite(lens[vChoose("wlen", 3)], MessageBinary)
+		case 1:
+			s.opStream(1, 1)
+		case 3:
+			s.trace += "L"
+			l := []int{0, 2, -1}[vChoose("limit", 3)]
+			s.c.SetReadLimit(int64(l))
+			s.limit = l
+		case 4:
+			// Close, the peer answering with its own Close frame or staying silent
+			s.trace += "C"
+			echo := vChoose("echo", 2) == 1
+			s.exp = append(s.exp, vSessOut{kind: 'c', code: 1000})
+			s.closeInExp = true
+			done := make(chan error, 1)
+			go func() { done <- s.c.Close(StatusNormalClosure, "") }()
+			vGhostSettle()
+			if echo {
+				s.feed(vFrame{fin: true, opcode: 8, payload: []byte{0x03, 0xe8}})
+			} else {
+				s.budget += 5 * time.Second
+			}
+			err := <-done
+			if echo {
+				vAssert(err == nil, "Gen.close.nil-when-the-peer-echoes")
+			}
+			s.usable = false
+			s.closedByCall = true
+			endReader()
+			vAssert(!vIsOpen(s.c), "Gen.close.connection-closed")
+			vAssert(s.t.isClosed, "Gen.close.transport-closed")
+			vGhostSettle()
+			vAssert(vGhostGoroutines() == 0, "Gen.close.no-goroutine-left")
+		case 5:
+			s.opCloseNow()
+			endReader()
+		case 6:
+			s.trace += "m"
+			n := lens[vChoose("plen", 3)]
+			typ := MessageBinary
+			if n == 1 {
+				typ = MessageText
+			}
+			p := vBytes("pm", n)
+			s.feed(vFrame{fin: true, opcode: uint8(typ), payload: p})
+			s.queue = append(s.queue, vSessIn{kind: vsMsg, typ: typ, payload: p})
+			afterFeed()
+		case 7:
+			s.trace += "f"
+			p1 := vBytes("pf", 1)
+			p2 := vBytes("pf", vChoose("f2", 2))
+			pp := vBytes("pfping", 2)
+			s.feed(vFrame{opcode: 2, payload: p1}, vFrame{fin: true, opcode: 9, payload: pp}, vFrame{fin: true, opcode: 0, payload: p2})
+			s.queue = append(s.queue, vSessIn{kind: vsFragPing, typ: MessageBinary, payload: append(append([]byte{}, p1...), p2...), first: 1, ping: pp})
+			afterFeed()
+		case 8:
+			s.trace += "p"
+			pp := vBytes("pp", []int{0, 2}[vChoose("pinglen", 2)])
+			s.feed(vFrame{fin: true, opcode: 9, payload: pp})
+			s.queue = append(s.queue, vSessIn{kind: vsPing, ping: pp})
+			afterFeed()
+		case 9:
+			s.trace += "o"
+			s.feed(vFrame{fin: true, opcode: 10, payload: vBytes("po", 1)})
+			s.queue = append(s.queue, vSessIn{kind: vsPong})
+			afterFeed()
+		case 10:
+			s.trace += "c"
+			switch vChoose("pcode", 3) {
+			case 0:
+				s.feed(vFrame{fin: true, opcode: 8, payload: []byte{0x03, 0xe8}})
+				s.queue = append(s.queue, vSessIn{kind: vsClose, code: 1000})
+			case 1:
+				s.feed(vFrame{fin: true, opcode: 8, payload: []byte{0x03, 0xe9, 'x'}})
+				s.queue = append(s.queue, vSessIn{kind: vsClose, code: 1001})
+			default:
+				s.feed(vFrame{fin: true, opcode: 8})
+				s.queue = append(s.queue, vSessIn{kind: vsClose, code: 1005})
+			}
+			afterFeed()
+		case 11:
+			s.trace += "x"
+			switch vChoose("viol", 2) {
+			case 0:
+				s.feed(vFrame{fin: true, rsv2: true, opcode: 2, payload: vBytes("px", 1)})
+			default:
+				s.feed(vFrame{fin: true, opcode: 3, payload: vBytes("px", 1)})
+			}
+			s.queue = append(s.queue, vSessIn{kind: vsViolation})
+			afterFeed()
+		case 12:
+			// a Ping of the application; the peer answers with a Pong bearing its payload (possibly after a Pong that
+			// answers nothing): Ping returns nil
+			s.trace += "A"
+			before := len(t.out)
+			done := make(chan error, 1)
+			ctx, cancel := context.WithTimeout(vBG, 2*time.Second)
+			go func() { done <- s.c.Ping(ctx) }()
+			vGhostSettle()
+			frs, ok := vParseWritten(t.out[before:])
+			vAssert(ok && len(frs) == 1 && frs[0].opcode == 9, "Gen.ping.frame-written")
+			s.exp = append(s.exp, vSessOut{kind: 'i'})
+			if ok && len(frs) == 1 {
+				if vChoose("strayPongFirst", 2) == 1 {
+					s.feed(vFrame{fin: true, opcode: 10, payload: append(append([]byte{}, frs[0].payload...), 'x')})
+					vGhostSettle()
+				}
+				s.feed(vFrame{fin: true, opcode: 10, payload: frs[0].payload})
+			}
+			err := <-done
+			cancel()
+			vAssert(err == nil, "Gen.ping.answered-returns-nil")
+		case 14:
+			s.trace += "z"
+			p := vBytes("pz", 2)
+			z := vStored(p, []int{2}, false)
+			s.feed(vFrame{opcode: 1, rsv1: true, payload: z[:3]}, vFrame{fin: true, opcode: 0, payload: z[3:]})
+			s.queue = append(s.queue, vSessIn{kind: vsMsg, typ: MessageText, payload: p})
+			afterFeed()
+		}
+	}
+	vReach("Gen.bg.program-done")
+	s.opCloseNow()
+	endReader()
+	vGhostSettle()
+	// what the reader delivered, in order
+	for k, w := range want {
+		var r vBgRead
+		select {
+		case r = <-got:
+		default:
+			vAssert(false, "Gen.bg.reader-delivered-less-than-the-peer-sent")
+			k = len(want)
+		}
+		if k == len(want) {
+			break
+		}
+		switch w.outcome {
+		case 0:
+			vAssert(r.err == nil, "Gen.read.delivers-the-next-message")
+			if r.err == nil {
+				vAssert(r.typ == w.typ, "Gen.read.type")
+				vAssert(vEqBytes(r.p, w.p), "Gen.read.payload")
+			}
+		case 1:
+			vAssert(r.err != nil, "Gen.read.peer-close-fails-read")
+			vAssert(int(CloseStatus(r.err)) == w.code, "Gen.read.peer-close-status")
+		case 2:
+			vAssert(r.err != nil, "Gen.read.fails")
+			var ce CloseError
+			vAssert(!errors.As(r.err, &ce), "Gen.read.failure-is-not-a-peer-close")
+		case 3:
+			vAssert(r.err != nil, "Gen.bg.reader-ends-with-the-connection")
+		}
+	}
+	select {
+	case <-got:
+		vAssert(false, "Gen.bg.reader-delivered-more-than-the-peer-sent")
+	default:
+	}
+	s.checkWire()
+	vAssert(vGhostElapsed() <= s.budget+vSlack()*time.Duration(1+len(s.trace)), "Gen.session.bounded-time")
+	vReach("Gen.bg.done")
+	vClassify("program", s.trace)
+	vObserve("sessionbg", s.trace, vWireSummary(t.out))
+}
